@@ -41,6 +41,7 @@ type Plan struct {
 	IgnoreCtx    bool    `json:"ignore_ctx,omitempty"`     // the stream handler never looks at its context (keeps sending / lingering)
 	ElemPad      int     `json:"elem_pad,omitempty"`       // pad each stream element
 	Bad          float64 `json:"bad,omitempty"`            // NaN / Inf here makes the arguments unmarshalable: the call fails in the client before anything is sent
+	ViaSub       bool    `json:"via_sub,omitempty"`        // notify: the notification goes to the channel-returning method (Tok.Sub) instead of Tok.Notify
 	RevRetry     bool    `json:"rev_retry,omitempty"`      // reverse calls go through retry-tagged fields of the reverse client
 	RevBig       int     `json:"rev_big,omitempty"`        // one reverse call whose argument, and therefore the client's response, has this many bytes
 	RevStream    int     `json:"rev_stream,omitempty"`     // the handler subscribes to a stream of this many elements served by the calling client
@@ -663,6 +664,8 @@ type TokClient struct {
 	SubFloat func(ctx context.Context, tok string, plan Plan) (<-chan float64, error)
 	SubRich  func(ctx context.Context, tok string, plan Plan) (<-chan Rich, error)
 	SubBare  func(ctx context.Context, tok string, plan Plan) <-chan Item
+	// NotifySub sends a notification to the channel-returning method
+	NotifySub func(ctx context.Context, tok string, plan Plan) error `notify:"true" rpc_method:"Tok.Sub"`
 	// Mismatch is declared as a subscription here, but the server method behind it returns a string: the response
 	// cannot be turned into a channel, the call stays in flight
 	Mismatch func(ctx context.Context, tok string, plan Plan) (<-chan Item, error) `rpc_method:"Tok.NotAChan"`
